@@ -31,7 +31,7 @@ type params struct {
 	maxBuf      int64
 	dirOK       bool
 	gens        [][]int // chunk sizes accepted per generation
-	consumerAlt int     // consumer behaviours offered per chunk: 1 confirm only, 2 +keep, 3 +stall, 4 +finish early
+	consumerAlt int     // consumer behaviours offered per chunk: 1 confirm only, 2 +keep, 3 +stall, 4 +finish early, 5 +hang forever
 	boundCheck  bool
 }
 
@@ -44,15 +44,16 @@ type entry struct {
 }
 
 type world struct {
-	p       params
-	root    string
-	qdir    string
-	ledger  map[string]*entry
-	ids     []string
-	viol    []string
-	violKey string
-	nextID  int
-	outcome []string
+	p        params
+	root     string
+	qdir     string
+	ledger   map[string]*entry
+	ids      []string
+	viol     []string
+	violKey  string
+	nextID   int
+	outcome  []string
+	hungSeen bool
 }
 
 func (w *world) violate(key, format string, args ...any) {
@@ -110,6 +111,7 @@ type consumer struct {
 	seen   []string
 	held   []base.LogChunk
 	done   bool
+	hung   bool // the consumer never finishes (e.g. blocked on its upstream beyond every timeout)
 	events []string
 }
 
@@ -161,6 +163,11 @@ loop:
 			vsched.Note("consumer finishes early holding %s", chunk.ID)
 			c.held = append(c.held, chunk)
 			break loop
+		case 4:
+			vsched.Note("consumer hangs forever holding %s", chunk.ID)
+			c.held = append(c.held, chunk)
+			c.hung = true
+			vsched.WaitUntil("consumer.hang", time.Time{}, func() bool { return false })
 		}
 	}
 	for _, chunk := range c.held {
@@ -300,10 +307,21 @@ func drive(w *world) explore.Verdict {
 		vsched.Note("destroy generation %d", g)
 		t0 := vsched.Elapsed()
 		buf.Destroy()
-		vsched.Recv(buf.Stopped().Channel(), "driver.wait-stopped")
+		if !cons.hung {
+			vsched.Recv(buf.Stopped().Channel(), "driver.wait-stopped")
+		}
 		took := vsched.Elapsed() - t0
-		if !cons.done {
+		if !cons.done && !cons.hung {
 			w.violate("stopped-before-consumer", "buffer reported stopped while the consumer had not finished")
+		}
+		if cons.hung {
+			// the chunk in the hands of a consumer that never returns it is outside the buffer's reach; if it was never
+			// saved it dies with the process. Everything else must still be conserved when Destroy gives up waiting.
+			for _, ch := range cons.held {
+				if e := w.ledger[ch.ID]; e != nil && !ch.Saved {
+					e.missing = true
+				}
+			}
 		}
 		// ---- end-of-generation accounting
 		m := hutil.Metrics(mf)
@@ -379,9 +397,13 @@ func drive(w *world) explore.Verdict {
 				w.violate("stop-too-slow", "Destroy took %v of virtual time, bound %v", took, bound)
 			}
 		}
-		w.outcome = append(w.outcome, fmt.Sprintf("g%d[seen=%d conf=%d disk=%d miss=%d drop=%d]", g, len(cons.seen), confirmedNow, len(files), newlyMissing, dropped))
+		w.outcome = append(w.outcome, fmt.Sprintf("g%d[seen=%d conf=%d disk=%d miss=%d drop=%d hung=%v]", g, len(cons.seen), confirmedNow, len(files), newlyMissing, dropped, cons.hung))
+		if cons.hung {
+			w.hungSeen = true
+			break // the old feeder still owns the directory: no further generation
+		}
 	}
-	if line := logs.FirstBugLine(); line != "" {
+	if line := logs.FirstBugLine(); line != "" && !(w.hungSeen && strings.Contains(line, "couldn't stop feeder in time")) {
 		i := strings.Index(line, "BUG")
 		w.violate("bug-log:"+hutil.KeyFrom(line[i:], 40), "agent logged: %s", line)
 	}
@@ -415,19 +437,19 @@ func scenarios() []*explore.Scenario {
 				if q == 2 && maxBuf == 10 {
 					continue
 				}
-				p := params{memCap: mem, queueCap: q, maxBuf: maxBuf, dirOK: true, consumerAlt: 4}
+				p := params{memCap: mem, queueCap: q, maxBuf: maxBuf, dirOK: true, consumerAlt: 5}
 				p.gens = [][]int{{4, 1, 9}, {4}}
 				p.name = fmt.Sprintf("dir/mem%d/q%d/max%d/g2", mem, q, maxBuf)
 				add(p, 2, 3)
 			}
 		}
 		// longer first generation, three generations
-		p := params{memCap: mem, queueCap: 50, maxBuf: 10, dirOK: true, consumerAlt: 4}
+		p := params{memCap: mem, queueCap: 50, maxBuf: 10, dirOK: true, consumerAlt: 5}
 		p.gens = [][]int{{4, 4, 1, 4}, {1}, {}}
 		p.name = fmt.Sprintf("dir/mem%d/q50/max10/g3", mem)
 		add(p, 1, 2)
 		// unusable directory
-		u := params{memCap: mem, queueCap: 50, maxBuf: 1000, dirOK: false, consumerAlt: 4}
+		u := params{memCap: mem, queueCap: 50, maxBuf: 1000, dirOK: false, consumerAlt: 5}
 		u.gens = [][]int{{4, 1, 9}}
 		u.name = fmt.Sprintf("nodir/mem%d", mem)
 		add(u, 2, 3)
